@@ -32,9 +32,11 @@ func (dq *distributedQueue[T]) Add(data T, c ...JobConfigFunc) bool {
 	}
 
 	if ok := dq.Enqueue(jBytes); !ok {
+		vhook("add.enq", j, false)
 		j.Close()
 		return false
 	}
+	vhook("add.enq", j, true)
 
 	return true
 }
